@@ -1,4 +1,5 @@
-\* C33, faithful model, liveness under weak fairness (no state constraint, no VIEW): every log is eventually acknowledged.
+\* C33, faithful model, liveness under weak fairness (no state constraint, no VIEW): every log is eventually acknowledged,
+\* and acknowledged again after a reset.
 SPECIFICATION FairSpec
 CONSTANTS
   MaxLogs = 2
@@ -7,9 +8,10 @@ CONSTANTS
   MaxStops = 1
   MaxResets = 1
   MaxRestarts = 1
-  JoinSubscriber = FALSE
+  JoinSubscriber = TRUE
   Mutant = "none"
   LateAccepts = FALSE
   RecordHist = FALSE
 PROPERTIES
   LiveAllAccepted
+  LiveAllAcceptedSinceReset
